@@ -48,6 +48,8 @@ def snapshot(root):
 
 
 def make_source(base, files, extra=True):
+    if not files and os.path.basename(base).endswith("the source") and len(base) % 3 == 0:
+        extra = False  # sometimes a completely empty source directory
     os.makedirs(base, exist_ok=True)
     for i, rel in enumerate(files):
         p = os.path.join(base, rel)
@@ -91,7 +93,7 @@ class Scratch:
 
 
 def rand_case(rng, n_files=None):
-    files = rng.sample(NAMES, n_files or rng.randint(1, 4))
+    files = rng.sample(NAMES, n_files if n_files is not None else rng.choice([0, 1, 1, 2, 3, 4]))
     scripts = [f for f in files if not f.endswith(".css")]
     sheets = [f for f in files if f.endswith(".css")]
     return {"name": rng.choice(["dep-1", "my.dep", "d_2", "Dep"]), "version": rng.choice(["1.0", "2.10.3", "0.1"]),
